@@ -245,7 +245,41 @@ def check_C16(tier, rng, jobs):
             "assumptions": ["XXH3 is compared with the xxhash crate called directly, not with an independent implementation"]}
 
 
-CHECKS = {"C01": check_C01, "C16": check_C16, "C18": check_C18, "C02": check_C02, "C05": check_C05, "C08": check_C08, "C09": check_C09, "C10": check_C10,
+def check_C19(tier, rng, jobs):
+    q = tier == QUICK
+    mc = [_mc_core("C19", "link", tier, keys=["k1"], datas=["d1", "d2"], algos=["sha256"],
+                   times=["1"], metas=[], dests=["x1", "x2"],
+                   fam=["link", "ext", "lookup", "write", "remove"], maxops=4 if q else 5,
+                   invariants=["TypeOK"], properties=["TargetsUntouched", "CheckedNeverWrong", "OnlyCommitMaps"])]
+    progs = [G.link_program(rng, 8 if q else 25) for _ in range(16 if q else 200)]
+    agg = RN.run_batches("C19", RN.chunk(progs, 2 if q else 4), jobs=jobs)
+    return {"mc": mc, "agg": agg, "samples": [progs[0]["steps"][:12]],
+            "rule": "targets of size {0,5,8,9,16KiB-1,16KiB,16KiB+1,40KiB}; absolute and relative target paths "
+                    "from four working directories; one-shot and linker handles with partial reads and declared "
+                    "size/integrity; reads by key and address through several entry points; targets changed / "
+                    "removed / replaced after linking; addresses that already exist as regular content; the "
+                    "symlink in the content area and the bytes of every target are part of the projection"}
+
+
+def check_C06(tier, rng, jobs):
+    q = tier == QUICK
+    mc = [_mc_index("C06", tier, 3, 1 if q else 2)]
+    progs = [G.index_damage_program(rng, nrec=rng.choice([1, 2, 3]), flips=(120 if q else "all"),
+                                    cuts=("all" if not q else 120))
+             for _ in range(8 if q else 24)]
+    if q:
+        progs.append(G.index_damage_program(rng, nrec=2, flips=0, cuts="all"))
+    agg = RN.run_batches("C06", RN.chunk(progs, 1), jobs=jobs)
+    return {"mc": mc, "agg": agg, "samples": [progs[0]["steps"][:10]],
+            "rule": "real buckets of 1-3 records (multi-byte UTF-8 keys/metadata); every cut length (thorough: and "
+                    "every single-bit flip); inserted garbage / NUL / invalid UTF-8 lines at every line boundary; "
+                    "removed newlines, duplicated and swapped lines, random overwrites; each followed by lookups "
+                    "through a sync and an async reader, listings, and for a sample further appends; the lexer "
+                    "alpha of the reference classifies the damaged bytes, TLC derives lookups and listings",
+            "coverage_extra": {"exhaustive_part_impl": "all cut lengths of the sampled buckets; thorough: all single-bit flips"}}
+
+
+CHECKS = {"C19": check_C19, "C06": check_C06, "C01": check_C01, "C16": check_C16, "C18": check_C18, "C02": check_C02, "C05": check_C05, "C08": check_C08, "C09": check_C09, "C10": check_C10,
           "C11": check_C11, "C14": check_C14}
 
 
